@@ -421,7 +421,8 @@ def collect_calls(directory):
                 key = (c["start"], c["len"])
                 if c["pid"] == driver:
                     mine.append(c)
-                elif key not in seen and c["start"] in starts[:-1] and c["seeds"] == want[c["start"]:c["start"] + c["len"]]:
+                elif key not in seen and c["start"] in starts[:-1] and c["len"] == sizes[starts.index(c["start"])] \
+                        and c["seeds"] == want[c["start"]:c["start"] + c["len"]]:
                     seen.add(key)
                     mine.append(c)
             chunks = mine
